@@ -1,4 +1,6 @@
-import SlugModel.Lemmas.TransEq
+import SlugModel.Lemmas.TrEq_validSymlink
+import SlugModel.Lemmas.TrEq_allowedSymlinkTarget
+import SlugModel.Lemmas.TrEq_isWithin
 /-!
 # C04 (tie by translation)
 
